@@ -469,6 +469,16 @@ func EDNSOption(t *rapid.T, o *Opts) wm.Option {
 			}
 			d = append([]byte{0, byte(fam), byte(mask), byte(scope)}, addr...)
 		}
+	case 10:
+		// RFC 7873 5.2: a client cookie of 8 octets, optionally followed by a server cookie of 8..32 octets; every
+		// other OPTION-LENGTH is ill-formed (a decoder may refuse it), so it is not in the canonical domain.
+		n := Len(t, 0, 40)
+		if n < 8 {
+			n = 8
+		} else if n < 16 {
+			n = 16
+		}
+		d = Bytes(t, n, false)
 	case 9:
 		if rapid.Bool().Draw(t, "expire") {
 			d = Bytes(t, 4, false)
